@@ -1,4 +1,5 @@
 import GenjaxVerif.Lemmas.GFIReplay
+import GenjaxVerif.Lemmas.GFIIndex
 import GenjaxVerif.Props.GFITest
 /-!
 # C12 — scan and its derived combinators match the documented Python loops
@@ -88,5 +89,30 @@ theorem C12_derived_return_maps (args xf fin : Val) (ys : List Val) (init : Val)
 /-- tests: the model on a concrete `iterate` and `accumulate` -/
 example : (run Test.ds .sim (Derived.iterate (.dist 1) 2) { Test.in1 with args := .tup [.int 5] }).toOption.map
     (fun r => r.tr.ret) = some (.arr [.int 5, .int 2, .int 2]) := by rfl
+
+end GenjaxVerif.GFI
+
+namespace GenjaxVerif.GFI
+open GenjaxVerif
+
+/-- Index edits of a scan (as repaired in /repo: `fix: Scan.edit_index returns the scan's final
+    carry`): iteration `idx` is edited with its recorded arguments; a following iteration is
+    re-scored with the new carry and must return what it returned before, and then the final
+    carry is the old one; at the last index the final carry is the edited iteration's; the stacked
+    outputs change only at `idx`; the weight is the sum of the (at most two) edits' weights. -/
+theorem C12_index_edit (ds : DistSem) (m : Mode) (p : Prog) (len : Option Nat) (key : KeyPath)
+    (args oldFin : Val) (ys : List Val) (elems : List Trace) (idx : Nat) (c : CMap) (sel : Sel) (r : Res)
+    (h : editIndex ds m (.scan p len) key (.vec args (.tup [oldFin, .arr ys]) elems) idx c sel = .ok r) :
+    ∃ (hk : idx < elems.length) (r' : Res) (carry' y' : Val),
+      run ds m p { c, sel, old := some elems[idx], key, args := elems[idx].args } = .ok r' ∧
+      r'.tr.ret = .tup [carry', y'] ∧ r.bwd = CMap.pre [.i idx] r'.bwd ∧
+      ((h1 : idx + 1 < elems.length) → ∃ (rn : Res) (x carryOld : Val), elems[idx + 1].args = .tup [carryOld, x] ∧
+          run ds .upd p { c := [], sel := .none, old := some elems[idx + 1], key, args := .tup [carry', x] } = .ok rn ∧
+          rn.tr.ret.beq elems[idx + 1].ret = true ∧
+          r.tr = .vec args (.tup [oldFin, .arr (ys.set idx y')]) ((elems.set idx r'.tr).set (idx + 1) rn.tr) ∧
+          r.w = r'.w + rn.w) ∧
+      (¬ idx + 1 < elems.length →
+          r.tr = .vec args (.tup [carry', .arr (ys.set idx y')]) (elems.set idx r'.tr) ∧ r.w = r'.w) :=
+  scan_index_edit ds m p len key args oldFin ys elems idx c sel r h
 
 end GenjaxVerif.GFI
